@@ -20,7 +20,7 @@ EXPLANATION = (
     "does not prove fidelity.")
 EXTRA_CONFIGS = ["h3-plain"]
 RULES = ("C01-f field mapping: pseudo-header writer/reader tables agree, append not insert, iterator, into_*_parts flows (A11/A4/A3); "
-         "C01-s = C02-a..g; C01-q = C03-body, C03-eob, C03-trl, C03-split; C01-v = C12-a, C12-d, C10-a, C10-b, C11-f, C15-c; C01-s also = C06-b on the frame/stream/adapter functions; C01-w = C14-a, C14-b, C14-e; C01-t = C17-a, C17-b "
+         "C01-s = C02-a..g; C01-q = C03-body, C03-eob, C03-trl, C03-split; C01-v = C12-a, C12-d, C10-a, C10-b, C11-f, C11-a (static table), C15-c; C01-s also = C06-b on the frame/stream/adapter functions; C01-w = C14-a, C14-b, C14-e; C01-t = C17-a, C17-b "
          "(re-used through a filtering proxy)")
 
 META = {
